@@ -44,7 +44,15 @@ type Outcome struct {
 type CheckFunc func(*Ctx) (*Outcome, error)
 
 // maxReported bounds the number of replay files one invocation writes.
-const maxReported = 6
+var maxReported = 6
+
+func init() {
+	// development aid: VERIF_MAX_REPORTED raises the number of violations written out
+	var n int
+	if _, err := fmt.Sscan(os.Getenv("VERIF_MAX_REPORTED"), &n); err == nil && n > 0 {
+		maxReported = n
+	}
+}
 
 // Finish writes evidence, prints KNOWN-FINDING / VIOLATION lines and returns the exit code.
 func Finish(c *Ctx, o *Outcome, err error) int {
